@@ -95,6 +95,10 @@ pub enum OOp {
     /// handle traffic while a write (true) / read (false) guard is alive: 0 = clone+drop, 1 = drop another
     /// owner, 2 = downgrade+upgrade+drop
     HandlesUnderGuard(usize, bool, u8),
+    /// like DropOwner, but the handle is dropped while its thread unwinds from a panic
+    DropOwnerUnwinding(usize),
+    /// `Clone::clone_from` on a subscriber: subscriber i is re-pointed to a subscriber of a fresh observable
+    SubCloneFromOther(usize),
     DropOwner(usize),
     Downgrade(usize),
     Upgrade(usize),
@@ -196,6 +200,7 @@ pub trait Fl {
     fn sub_read(s: &Self::Sub) -> Val;
     fn sub_reset(s: &mut Self::Sub);
     fn sub_clone(s: &Self::Sub) -> Self::Sub;
+    fn sub_clone_from(a: &mut Self::Sub, b: &Self::Sub);
     fn sub_clone_reset(s: &Self::Sub) -> Self::Sub;
 }
 
@@ -434,6 +439,9 @@ impl Fl for SyncFl {
     fn sub_reset(s: &mut Self::Sub) {
         s.reset()
     }
+    fn sub_clone_from(a: &mut Self::Sub, b: &Self::Sub) {
+        a.clone_from(b)
+    }
     fn sub_clone(s: &Self::Sub) -> Self::Sub {
         s.clone()
     }
@@ -611,6 +619,9 @@ impl Fl for AsyncFl {
     }
     fn sub_reset(s: &mut Self::Sub) {
         s.reset()
+    }
+    fn sub_clone_from(a: &mut Self::Sub, b: &Self::Sub) {
+        a.clone_from(b)
     }
     fn sub_clone(s: &Self::Sub) -> Self::Sub {
         s.clone()
@@ -1025,11 +1036,24 @@ fn run_inner<F: Fl>(h: &ObsHistory) -> Result<OFacts, Div> {
                     }
                     Res::Unit
                 }
-                OOp::DropOwner(hh) => {
+                OOp::DropOwner(hh) | OOp::DropOwnerUnwinding(hh) => {
+                    let unwinding = matches!(op, OOp::DropOwnerUnwinding(_));
+                    // drop `x` while this thread unwinds (resume_unwind does not run the panic hook)
+                    fn drop_unwinding<X>(x: X) {
+                        let r = std::panic::catch_unwind(std::panic::AssertUnwindSafe(move || {
+                            let _keep = x;
+                            std::panic::resume_unwind(Box::new(()));
+                        }));
+                        assert!(r.is_err());
+                    }
                     if m.unique {
                         match w.uniq.take() {
                             Some(u) => {
-                                drop(u);
+                                if unwinding {
+                                    drop_unwinding(u);
+                                } else {
+                                    drop(u);
+                                }
                                 m.closed = true;
                                 f.closes += 1;
                             }
@@ -1040,7 +1064,11 @@ fn run_inner<F: Fl>(h: &ObsHistory) -> Result<OFacts, Div> {
                     } else {
                         let i = hh % w.owners.len();
                         let o = w.owners.remove(i);
-                        drop(o);
+                        if unwinding {
+                            drop_unwinding(o);
+                        } else {
+                            drop(o);
+                        }
                         if w.owners.is_empty() {
                             m.closed = true;
                             f.closes += 1;
@@ -1250,6 +1278,34 @@ fn run_inner<F: Fl>(h: &ObsHistory) -> Result<OFacts, Div> {
                     w.subs.push(Some(c));
                     m.subs.push(Some(SubM { observed, pending: None, own: None, dirty: false }));
                     f.subs_created += 1;
+                    Res::Unit
+                }
+                OOp::SubCloneFromOther(si) => {
+                    let live: Vec<usize> = (0..w.subs.len()).filter(|i| w.subs[*i].is_some()).collect();
+                    if live.is_empty() {
+                        break 'op Res::Skipped;
+                    }
+                    let i = live[si % live.len()];
+                    let mut moved = w.subs[i].take().unwrap();
+                    m.subs[i] = None;
+                    let other = F::new_s(Hk::new((1, 1)));
+                    let osub = F::s_subscribe(&other);
+                    F::sub_clone_from(&mut moved, &osub);
+                    let c = F::s_counts(&other);
+                    if c != (1, 2, 3, 0) {
+                        bail!("C19", "step {step} Subscriber::clone_from: the other observable (1 handle, its own subscriber and the re-pointed one) reports {c:?}, live = (1, 2, 3, 0)");
+                    }
+                    let v = F::sub_get(&moved);
+                    if v != (1, 1) {
+                        bail!("C01", "step {step} Subscriber::clone_from: the re-pointed subscriber reads {v:?}, the other observable holds (1, 1)");
+                    }
+                    drop(moved);
+                    let c = F::s_counts(&other);
+                    if c != (1, 1, 2, 0) {
+                        bail!("C19", "step {step} Subscriber::clone_from: after the re-pointed subscriber was dropped the other observable reports {c:?}, live = (1, 1, 2, 0)");
+                    }
+                    drop(osub);
+                    drop(other);
                     Res::Unit
                 }
                 OOp::SDrop(si) => {
